@@ -159,11 +159,13 @@ def run_job(spec):
         mod = importlib.import_module(spec["module"])
         H = {h.name: h for h in mod.HARNESSES}[spec["harness"]]
         from symnp.core import BudgetExceeded
+        # per-skeleton wall budget: the thorough tier may spend longer on one skeleton
+        budget = getattr(H, "job_timeout_thorough_s", 6 * H.job_timeout_s) if spec.get("tier") == "thorough" else H.job_timeout_s
 
         def on_alarm(signum, frame):
-            raise BudgetExceeded(f"job wall time budget ({H.job_timeout_s}s)")
+            raise BudgetExceeded(f"job wall time budget ({budget}s)")
         signal.signal(signal.SIGALRM, on_alarm)
-        signal.setitimer(signal.ITIMER_REAL, H.job_timeout_s + 5)
+        signal.setitimer(signal.ITIMER_REAL, budget + 5)
         try:
             soft, hard = resource.getrlimit(resource.RLIMIT_AS)
             lim = 6 << 30
@@ -172,7 +174,7 @@ def run_job(spec):
             pass
         symnp.install()
         ENGINE.__init__()
-        ENGINE.deadline = t_start + H.job_timeout_s
+        ENGINE.deadline = t_start + budget
         skel = spec["skel"]
         V = Vars()
         H.inputs(skel, V)
